@@ -44,7 +44,7 @@ def _profile_functions(scenario, params, core, model):
                     seen[key] = co.co_firstlineno
     sys.setprofile(prof)
     try:
-        core.replay(scenario, params, model)
+        core.replay(scenario, params, model, timeout_s=10)
     except BaseException:
         pass
     finally:
@@ -79,7 +79,7 @@ def _run_shard(job):
             ok = False
             for v in tw['violations'][:1]:
                 try:
-                    failures, exc, cenv = core.replay(scen, params, v['model'], timeout_s=15)
+                    failures, exc, cenv = core.replay(scen, params, v['model'], timeout_s=getattr(mod, 'PLAIN_REPLAY_TIMEOUT', 15))
                     ok = v['label'][5:] in cenv.passed + [f[0] for f in failures]
                 except core.ReplayMismatch:
                     ok = False
@@ -108,7 +108,9 @@ def _confirm(mod, shard, viol):
     """Concrete replay of a counterexample. Returns (confirmed, text)."""
     from symx import core
     scen = getattr(mod, shard['scenario'])
-    ok, text = _confirm_with(core.replay, mod, shard, viol, scen)
+    import functools
+    ok, text = _confirm_with(functools.partial(core.replay, timeout_s=getattr(mod, 'PLAIN_REPLAY_TIMEOUT', 60)),
+                             mod, shard, viol, scen)
     if ok or not getattr(mod, 'ALLOW_PINNED_REPLAY', False):
         return ok, text
     ok2, text2 = _confirm_with(core.replay_pinned, mod, shard, viol, scen)
